@@ -344,6 +344,8 @@ def materialise(v: Any) -> Any:
         return ("i", v)
     if isinstance(v, float):
         return ("f", repr(v))
+    if isinstance(v, complex):
+        return ("c", repr(v))
     if isinstance(v, str):
         return ("s", v)
     if isinstance(v, bytes):
@@ -373,7 +375,7 @@ def materialise(v: Any) -> Any:
 
 def mat_nonempty(m) -> bool:
     """Does a materialised value contain at least one scalar leaf?"""
-    if m[0] in ("b", "i", "f", "s", "y", "o", "ERR"):
+    if m[0] in ("b", "i", "f", "s", "y", "o", "c", "ERR"):
         return True
     if m[0] == "d":
         return any(mat_nonempty(x) for _, x in m[1])
